@@ -106,7 +106,11 @@ func (p *policyRulesMergeContext) merge(policy *PolicyRules) {
 		existing, found := p.identityRules[id.Name]
 
 		if !found {
-			p.identityRules[id.Name] = id
+			// Store a copy: the rule is mutated below when later policies
+			// take precedence, and the input belongs to a parsed policy
+			// that is shared through the policy cache.
+			ruleCopy := *id
+			p.identityRules[id.Name] = &ruleCopy
 			continue
 		}
 
@@ -124,7 +128,11 @@ func (p *policyRulesMergeContext) merge(policy *PolicyRules) {
 		existing, found := p.identityPrefixRules[id.Name]
 
 		if !found {
-			p.identityPrefixRules[id.Name] = id
+			// Store a copy: the rule is mutated below when later policies
+			// take precedence, and the input belongs to a parsed policy
+			// that is shared through the policy cache.
+			ruleCopy := *id
+			p.identityPrefixRules[id.Name] = &ruleCopy
 			continue
 		}
 
@@ -224,7 +232,11 @@ func (p *policyRulesMergeContext) merge(policy *PolicyRules) {
 		existing, found := p.serviceRules[sp.Name]
 
 		if !found {
-			p.serviceRules[sp.Name] = sp
+			// Store a copy: the rule is mutated below when later policies
+			// take precedence, and the input belongs to a parsed policy
+			// that is shared through the policy cache.
+			ruleCopy := *sp
+			p.serviceRules[sp.Name] = &ruleCopy
 			continue
 		}
 
@@ -242,7 +254,11 @@ func (p *policyRulesMergeContext) merge(policy *PolicyRules) {
 		existing, found := p.servicePrefixRules[sp.Name]
 
 		if !found {
-			p.servicePrefixRules[sp.Name] = sp
+			// Store a copy: the rule is mutated below when later policies
+			// take precedence, and the input belongs to a parsed policy
+			// that is shared through the policy cache.
+			ruleCopy := *sp
+			p.servicePrefixRules[sp.Name] = &ruleCopy
 			continue
 		}
 
